@@ -86,7 +86,9 @@ def fn_int(fr, tag: str, args, width: int) -> AInt:
     abstraction for a different value."""
     if tag.startswith("arith:") and not getattr(fr.I, "uninterpreted_arith", False):
         why = f"{tag} of symbolic integers at {fr.fi.module.relpath}"
-        return AInt([OB(why) for _ in range(width)])
+        r_ = AInt([OB(why) for _ in range(width)])
+        r_.oext = why           # `width` is a display width only: the true value may be wider (a 144-bit packed word)
+        return r_
     key = (tag, _freeze([_norm(fr, a) for a in args]))
     return AInt([fr.I.atom_form(("fn", key, j)) for j in range(width)])
 
@@ -323,6 +325,14 @@ def int_binop(fr, op, l, r, node):
     I = fr.I
     A, B = fr.to_int(l), fr.to_int(r)
     lc, rc = const_of(fr, l), const_of(fr, r)
+    for X_, other_c in ((A, rc), (B, lc)):
+        if getattr(X_, "oext", None) is not None:
+            # an operand of unknown magnitude: the result is of unknown magnitude too, except where a constant mask bounds it
+            if isinstance(op, ast.BitAnd) and other_c is not None and other_c >= 0:
+                return AInt([OB(X_.oext) if (other_c >> j) & 1 else ZERO for j in range(max(other_c.bit_length(), 1))])
+            r_ = AInt([OB(X_.oext) for _ in range(64)])
+            r_.oext = X_.oext
+            return r_
     if lc is not None and rc is not None:
         from .model import BIN
         try:
@@ -1238,6 +1248,9 @@ def subscript(fr, base, sl, node):
                 raise PathRaise("KeyError", "enum key")
             if ident_key(i):
                 raise PathRaise("KeyError", repr(i))
+            ka = key_atoms(fr, i)
+            if ka is not None and len(ka) <= MAX_FIN_ATOMS:
+                raise NeedCases(ka)          # a key that is a function of a few input bits: decided per assignment of those bits
             raise Abort("abstract dict key")
         try:
             return base[i]
@@ -1653,6 +1666,34 @@ def b_type(fr, args, kw, n):
     return fr.I.opaque("type()")
 
 
+def key_atoms(fr, key):
+    """atoms an abstract dictionary key depends on (an int / finite function / tuple of those), or None when it is not of that kind"""
+    I = fr.I
+    acc = set()
+
+    def walk(v):
+        if isinstance(v, (tuple, list)):
+            return all(walk(x) for x in v)
+        if isinstance(v, AInt) and v.ext is None:
+            for b in I.simp_bits(v.bits):
+                if isinstance(b, F):
+                    acc.update(b.atoms())
+                elif isinstance(b, AFin):
+                    acc.update(b.atoms)
+                else:
+                    return False
+            return True
+        if isinstance(v, AFin):
+            v2 = I.simp_fin(v)
+            if isinstance(v2, AFin):
+                acc.update(v2.atoms)
+            return True
+        if isinstance(v, AEnum):
+            return walk(v.val)
+        return not is_abs(v)
+    return sorted(acc) if walk(key) and acc else None
+
+
 def b_str(fr, args, kw, n):
     if args and is_abs(args[0]):
         return fr.I.opaque("str()")
@@ -2056,8 +2097,12 @@ def method(fr, base, name, args, kw, n):
                 if isinstance(k_, AFin):
                     raise NeedCases(sorted(k_.atoms))      # a key selected by a few input bits: per assignment of those bits
                 args = [k_] + list(args[1:])
-            if name == "get" and args and is_abs(args[0]):
+            if name == "get" and args and (is_abs(args[0]) or isinstance(args[0], tuple)):
                 args = [concretise(fr, args[0])] + list(args[1:])
+            if name == "get" and args and (is_abs(args[0]) or (isinstance(args[0], tuple) and any(is_abs(x) for x in args[0]))):
+                ka = key_atoms(fr, args[0])
+                if ka is not None and len(ka) <= MAX_FIN_ATOMS:
+                    raise NeedCases(ka)          # a (tuple) key that is a function of a few input bits: per assignment of those bits
             if name == "get" and args and is_abs(args[0]):
                 try:
                     return subscript_dict_abs(fr, base, args[0], n)
@@ -2114,6 +2159,8 @@ def concretise(fr, key):
         if c is not None:
             return bool(c) if key.isbool else c
         return key
+    if isinstance(key, AFin):
+        return fr.I.simp_fin(key)         # constant once the atoms it depends on are pinned (inside a case split)
     if isinstance(key, tuple):
         return tuple(concretise(fr, k) for k in key)
     return key
@@ -2160,6 +2207,9 @@ def subscript_dict_abs(fr, d, key, n):
             if I.decide(compare(fr, ast.Eq(), key, k, n), f"dictget:{n.lineno}"):
                 return d[k]
         raise PathRaise("KeyError", "symbolic key equal to none of the stored keys")
+    ka = key_atoms(fr, key)
+    if ka is not None and len(ka) <= MAX_FIN_ATOMS:
+        raise NeedCases(ka)
     raise Abort("abstract dict key")
 
 
